@@ -211,7 +211,7 @@ class CFG:
         return out
 
     # ---- branch conditions ---------------------------------------------------
-    def controlling_branches(self, p):
+    def control_dep(self, p):
         """Branches on which point p is control dependent, as a list of
         (cond stmt id, polarity) where polarity is the successor index (0 = true edge)
         through which p is reached exclusively. Computed from post-dominance: block X with
@@ -232,6 +232,30 @@ class CFG:
                     continue
                 if s == pb or (s in self.pdom and pb in self.pdom[s]):
                     out.append((b.cond, k, b.id))
+        return out
+
+    def controlling_branches(self, p):
+        """Dominating guards of point p: (cond stmt id, successor index, block) for every
+        conditional edge that every path entry -> p must take (removing the edge makes p
+        unreachable).  Successor index 0 is the true edge of an if/loop condition."""
+        key = ('g', p)
+        if key in self._reach_cache:
+            return self._reach_cache[key]
+        out = []
+        entry = self.entry_point()
+        for b in self.blocks.values():
+            if b.cond is None or len([s for s in b.succ if s is not None]) < 2:
+                continue
+            if b.id not in self.dom.get(p[0], ()):  # the branch block itself must dominate p
+                continue
+            if b.id == p[0]:
+                continue
+            for k, s in enumerate(b.succ):
+                if s is None:
+                    continue
+                if not self.exists_path(entry, p, edge_filter=lambda bb, kk, b=b, k=k: not (bb == b.id and kk == k)):
+                    out.append((b.cond, k, b.id))
+        self._reach_cache[key] = out
         return out
 
     # ---- forward dataflow -----------------------------------------------------
